@@ -485,6 +485,22 @@ func (r *Run) totpTable(code string) [][2]string {
 	if code == "" {
 		return nil
 	}
+	return totpTableFor(code, r.totpSecrets())
+}
+
+// totpTableFor: which of the given secrets accept the code right now
+func totpTableFor(code string, ss []string) [][2]string {
+	var out [][2]string
+	for _, s := range ss {
+		if totp.Validate(code, s) {
+			out = append(out, [2]string{hx(s), hx(code)})
+		}
+	}
+	return out
+}
+
+// totpSecrets: every TOTP secret in storage or in a session (an enrolment in progress), sorted
+func (r *Run) totpSecrets() []string {
 	secrets := map[string]bool{}
 	for _, k := range r.w.st.keys {
 		if s := r.w.st.users[k].TOTPSecretKey; s != "" {
@@ -501,13 +517,7 @@ func (r *Run) totpTable(code string) [][2]string {
 		ss = append(ss, s)
 	}
 	sort.Strings(ss)
-	var out [][2]string
-	for _, s := range ss {
-		if totp.Validate(code, s) {
-			out = append(out, [2]string{hx(s), hx(code)})
-		}
-	}
-	return out
+	return ss
 }
 
 // exec runs one symbolic step on the real library and records action, oracle, observation.
@@ -565,6 +575,7 @@ func (r *Run) exec(s SymStep) StepRec {
 				r.k.submitted(kv[1])
 			}
 		}
+		secs0 := r.totpSecrets()
 		tab0 := r.totpTable(code)
 		rec.Oracle.Totp = tab0
 		rec.Action = &Action{Kind: "req", Req: &q}
@@ -572,7 +583,9 @@ func (r *Run) exec(s SymStep) StepRec {
 			rec.Unstable = true
 		}
 		ro = w.do(q)
-		if fmt.Sprint(r.totpTable(code)) != fmt.Sprint(tab0) {
+		// the oracle table must not have moved DURING the request (a 30-second boundary crossed): judged on the
+		// secrets that existed before it - a request that removes or enrols a secret changes the set, not the clock
+		if code != "" && fmt.Sprint(totpTableFor(code, secs0)) != fmt.Sprint(tab0) {
 			rec.Unstable = true
 		}
 		r.afterReq(q, ro)
